@@ -43,7 +43,14 @@ fn main() {
     }
     let get = |name: &str| args.iter().position(|a| a == name).and_then(|i| args.get(i + 1).cloned());
     let tier = get("--tier").or_else(|| std::env::var("VERIF_TIER").ok()).unwrap_or_else(|| "quick".into());
-    let opts = Opts { prop: args[0].clone(), tier, replay: get("--replay").map(PathBuf::from), seed: seed() };
+    let opts = Opts { prop: args[0].clone(), tier, replay: get("--replay").map(|r| {
+            // the wrapper script changes directory: relative paths refer to the caller's directory
+            let p = PathBuf::from(&r);
+            match std::env::var("VERIF_ORIG_CWD") {
+                Ok(cwd) if p.is_relative() => PathBuf::from(cwd).join(p),
+                _ => p,
+            }
+        }), seed: seed() };
     std::fs::create_dir_all(format!("{}/tmp", WORK)).ok();
     std::fs::create_dir_all(format!("{}/out", WORK)).ok();
     std::fs::create_dir_all(format!("{}/replays", WORK)).ok();
